@@ -427,7 +427,7 @@ def within(t, lst, tol):
     return any(abs(e - t) <= tol for e in lst)
 
 
-def times_oracle(case, T, dflt, obs_specs, stored, fed, status, viols, check_missing=True):
+def times_oracle(case, T, dflt, obs_specs, stored, fed, status, viols, check_missing=True, must_emulate=False):
     """obs_specs: list of (label, own); stored: list of lists of stored times"""
     tol = 0.5 / T if T else 1e-6
 
@@ -456,6 +456,12 @@ def times_oracle(case, T, dflt, obs_specs, stored, fed, status, viols, check_mis
                 used.add(min(cand)[1])
             elif status == 0 and check_missing and any(0.0 <= t <= 1.0 and abs(t - r) <= tol for t in fed):
                 bad("results:requested-time-missing", f"{label}: requested time {r} was emulated but no value is stored (stored: {ts})")
+            elif status == 0 and must_emulate:
+                # a backend run: every requested time must have been emulated and stored
+                near = min(fed, key=lambda x: abs(x - r)) if fed else None
+                bad("results:requested-time-not-emulated",
+                    f"{label}: requested time {r} has no stored value and the emulation did not stop there "
+                    f"(closest emulated time {near}, tolerance {tol}, default times {dflt})")
         for i, t in enumerate(ts):
             if i in used:
                 continue
@@ -643,7 +649,8 @@ def run_backend(case):
                 amps = {eig[0] * n: 0.6, eig[1] * n: 0.8j}
                 init = QutipState.from_state_amplitudes(eigenstates=eig, amplitudes=amps)
             cfg = QutipConfig(observables=observables, default_evaluation_times=case["dflt"],
-                              noise_model=NoiseModel(**noise), initial_state=init)
+                              noise_model=NoiseModel(**noise), initial_state=init,
+                              sampling_rate=case.get("rate", 1.0))
             backend = QutipBackendV2(seq, config=cfg)
     except Exception as e:  # noqa: BLE001
         bad(f"backend:construction-raises:{exc_name(e)}", f"building the backend raised {e!r}")
@@ -673,7 +680,7 @@ def run_backend(case):
                own_state=None if case["dflt"] == "Full" else union)
     if res.total_duration != T or tuple(res.atom_order) != tuple(f"q{i}" for i in range(n)):
         bad("results:header", "total_duration / atom_order of the results differ from the sequence")
-    times_oracle(case, T, case["dflt"], specs, stored[:-1], fed, 0, viols)
+    times_oracle(case, T, case["dflt"], specs, stored[:-1], fed, 0, viols, must_emulate=True)
     retrieval_oracle(case, res, observables, viols)
 
     # states and Hamiltonians at the stored times
